@@ -28,7 +28,7 @@ CLAIMS['C20'] = dict(
     text='Static analysis of minidump-stackwalk: no undischarged panic edge in the binary (the --features unimplemented!() arm is discharged by agreement between the clap value_parser list and the handled arms), '
          'every process::exit has status 1 after a diagnostic, no failure exit is reachable after a printer call, the output writers are handed only to ProcessState::print/print_brief/print_json and print_minidump_dump, '
          'and each printer call is control-dependent on the option that selects it with cli.brief / cli.pretty / the cyborg file wired as documented. This decides the wiring clauses for every input and option set; '
-         'byte equality with the library follows from "same call, same writer" and is not compared on values. Raw-dump mode: every fetched stream type is printed and no eagerly evaluated fallback take()s a stream (C20.6).',
+         'byte equality with the library follows from "same call, same writer" and is not compared on values. Raw-dump mode: every fetched stream type is printed and no eagerly evaluated fallback take()s a stream (C20.6). C20.7: every report-shaping Cli field has a read that dominates process_minidump_with_options. C20.8: files are opened for writing only through File::create / create_new (called or as a function value) or an OpenOptions chain that truncates, and --output-file / --cyborg are opened that way, so a destination holds nothing but this run\'s report.',
     note='Trusted: clap (value_parser and ArgGroup enforcement), tokio::select!, rustc MIR, the extractor. Renaming the mode variables (human/json/raw_dump) is reported as a missing anchor.',
     ref='DESIGN.md §3 C20')
 
